@@ -103,6 +103,10 @@ def shaped(rng):
         # starts: whatever has asked before the tick starts shares it
         *[{"components": [dev("X", cb={"kind": "period", "p": 60 * P}), dev("Y")], "n_ticks": 4,
            "stims": [{"real": 60 * P, "yields": k, "comp": "Y"}]} for k in range(0, 7)],
+        # interrupts at speeds other than 1: the tick that serves an interrupt carries the simulation time that
+        # corresponds to the real time of the interrupt (neither earlier nor an invented later one)
+        *[{"components": [dev("X", cb={"kind": "period", "p": 50 * P}), dev("Y"), dev("Z", {"i": ["Y", "o"]})], "n_ticks": 5, "speed": sp,
+           "stims": [{"real": 7 * P + 111, "comp": "Y"}, {"real": 23 * P + 111, "comp": "Z"}, {"real": 61 * P + 111, "comp": "Y"}]} for sp in ([2, 1], [1, 2], [3, 2])],
         {"components": [dev("p", cb={"kind": "period", "p": 10 * P}), dev("q", {"i": ["p", "o"]})], "n_ticks": 7,
          "stims": [{"real": 5 * P + 111, "comp": "p"}, {"real": 23 * P + 111, "comp": "p"}, {"real": 27 * P + 111, "comp": "q"}]},
     ]
